@@ -1896,6 +1896,12 @@ def run(tier):
               'limit (after the kill nothing blocks on the pipes of a '
               'surviving grandchild): each of the finitely many tests ends '
               '(shared with C10.R1)', sub10)
+    from .. import defaultconsts
+    chk.guard(defaultconsts.report_are_constants, chk, prog, 'C03.R17',
+              'ddSMT\'s own default constants are constants for its own '
+              'is_const() (the repository\'s source of get_default_constants '
+              'and of the predicates is folded on literal sorts)',
+              'a cycle of accepted rewrites: the same inputs are visited for ever')
     extra = None
     if tier == 'thorough':
         from .. import selftest
